@@ -241,6 +241,7 @@ func checkC13(c *Ctx) error {
 	c.Coverage["configs_total"] = len(pipe.Items)
 	c.Coverage["configs_wire_rejected"] = wireRejected
 	c.Coverage["configs_not_separable"] = notSeparable
+	c.Coverage["bounds"] = map[string]any{"configurations": "families W1 (DAGs x error masks x argument), W2 (constructs), W3 (repository testdata)", "failures": "every fallible call forked", "outside": "configurations wire itself rejects; wire features not listed in W2"}
 	c.Coverage["explanation"] = "Oracle: google/wire v0.7.0 itself (built offline from the module cache). For every configuration: wire gen -> wire_gen.go; kessoku migrate -> kessoku.go -> kessoku generate -> kessoku_band.go (both tools built from the tree / cache at check time). Both injectors' go/ssa is executed symbolically (providers uninterpreted, struct literals as constructor terms, field reads as selector terms, failures forked at every fallible call): result terms, multisets of (provider, argument terms), parameter lists and the error returned on every single-failure path must agree. The code is sequential (the migrator never emits Async), so terms are closed and compared in the free term algebra: different normal forms have a distinguishing interpretation."
 	c.Assume("providers are deterministic functions of their arguments (uninterpreted); configurations wire rejects are outside the property's quantifier; testdata inputs whose wire file also declares the types/providers cannot be set aside and are compared only by C14's gates")
 	if compared == 0 {
